@@ -156,6 +156,10 @@ pub struct ReadCase {
     /// exactly at this offset (256, 512: pointers whose second octet is zero)
     #[serde(default)]
     pub align_target: Option<u16>,
+    /// after the prefix names: this many pointer-only chunks, the first pointing at the last prefix name,
+    /// each next one at the previous; an embedded name written as a pointer then enters at the top
+    #[serde(default)]
+    pub ladder: u16,
     /// cursor adjustment (-2..=2) and RDLENGTH adjustment selector
     pub cursor_delta: i8,
     pub rdlength_mode: u8,
@@ -174,6 +178,29 @@ pub fn oracle_read(c: &ReadCase, st: &mut Stats) -> Verdict {
         }
         r.put_name(n, 0xffff);
     }
+    // the ladder: its top is where RDATA names written as bare pointers will point
+    let mut ladder_top: Option<usize> = None;
+    if c.ladder > 0 && !c.prefix.is_empty() {
+        // the last prefix name starts where it was put: find it again by rendering its length
+        let last = c.prefix.last().unwrap();
+        let mut probe = Renderer::new();
+        probe.buf.extend_from_slice(&[0u8; 12]);
+        for n in &c.prefix[..c.prefix.len() - 1] {
+            probe.put_name(n, 0xffff);
+        }
+        let mut target = probe.buf.len().max(c.align_target.map_or(0, |a| a as usize));
+        let _ = last;
+        for _ in 0..c.ladder {
+            let here = r.buf.len();
+            if target > 0x3fff {
+                break;
+            }
+            r.buf.push(0xc0 | (target >> 8) as u8);
+            r.buf.push(target as u8);
+            target = here;
+        }
+        ladder_top = Some(target);
+    }
     let start = r.buf.len();
     // offsets (relative to start) where embedded names begin
     let mut name_starts = Vec::new();
@@ -182,7 +209,14 @@ pub fn oracle_read(c: &ReadCase, st: &mut Stats) -> Verdict {
             FieldSpec::Bytes(b) => r.buf.extend_from_slice(b),
             FieldSpec::Name(n, comp) => {
                 name_starts.push(r.buf.len() - start);
-                r.put_name(n, *comp);
+                match ladder_top {
+                    // the name equal to the last prefix name, written as one pointer into the ladder
+                    Some(top) if top <= 0x3fff && c.prefix.last().map_or(false, |p| p.eq_fold(n)) => {
+                        r.buf.push(0xc0 | (top >> 8) as u8);
+                        r.buf.push(top as u8);
+                    }
+                    _ => r.put_name(n, *comp),
+                }
             }
         }
     }
@@ -207,6 +241,9 @@ pub fn oracle_read(c: &ReadCase, st: &mut Stats) -> Verdict {
         _ => c.rdlength_sel as usize,
     }
     .min(65535);
+    if ladder_top.is_some() {
+        st.class(if c.ladder >= 120 { "name-reached-through-120-or-more-pointers" } else { "name-reached-through-a-short-pointer-ladder" });
+    }
     let model = decode_in_message(c.class, c.rtype, &msg, cursor, rdlength);
     let got = match catch(|| {
         Rdata::read(Class::from(c.class), Type::from(c.rtype), &msg, cursor, rdlength as u16).map(|r| r.octets().to_vec())
@@ -291,8 +328,9 @@ fn read_case() -> impl Strategy<Value = ReadCase> {
         0u8..12,
         any::<u16>(),
         prop_oneof![5 => Just(None), 1 => Just(Some(256u16)), 1 => Just(Some(512u16))],
+        prop_oneof![16 => Just(0u16), 1 => 1u16..6, 2 => 120u16..136, 1 => 250u16..262],
     )
-        .prop_map(|(mut prefix, (rtype, class, mut fields), suffix, cursor_delta, rdlength_mode, rdlength_sel, align_target)| {
+        .prop_map(|(mut prefix, (rtype, class, mut fields), suffix, cursor_delta, rdlength_mode, rdlength_sel, align_target, ladder)| {
             // make pointer targets likely: earlier names that share suffixes with the embedded names
             if rdlength_sel % 4 != 0 {
                 for f in fields.iter_mut() {
@@ -312,6 +350,7 @@ fn read_case() -> impl Strategy<Value = ReadCase> {
             fields,
             suffix,
             align_target,
+            ladder,
             cursor_delta,
             rdlength_mode,
             rdlength_sel,
